@@ -156,6 +156,19 @@ class Run:
         """A proof obligation or a correspondence that no longer checks."""
         self.broken.append({"kind": kind, "name": name, "detail": detail[:4000]})
 
+    def attempt(self, what: str, fn, *a, replay=None, **k):
+        """Call the real system; an exception on an input it must handle is recorded as a
+        broken exploration (the property is no longer shown to hold on that input)."""
+        import traceback
+        try:
+            return True, fn(*a, **k)
+        except Exception as e:  # noqa: BLE001
+            tb = traceback.format_exc()
+            self.broke("implementation-raises", f"{what}: {type(e).__name__}: {str(e)[:300]}", tb[-2500:])
+            if replay is not None and not any(b.get("replay") for b in self.broken):
+                self.broken[-1]["replay"] = replay
+            return False, e
+
     # -- verdict -------------------------------------------------------------------
     def finish(self) -> int:
         # broken obligations/correspondences without a concrete failing input
@@ -296,6 +309,14 @@ def build_and_audit(run: Run, props_modules: list[str], extra_modules: list[str]
     Every theorem of every Props module becomes one obligation; it is discharged iff
     the module elaborated and `#print axioms` lists only the allowed axioms.
     """
+    missing = [m for m in props_modules
+               if not (LEAN / "GettsimVerif" / "Props" / f"{m}.lean").exists()]
+    for m in missing:
+        run.broke("build", f"Props.{m}", "property theorem file is missing")
+        run.oblige(f"Props.{m} exists", False)
+    props_modules = [m for m in props_modules if m not in missing]
+    if not props_modules:
+        return False
     mods = [f"GettsimVerif.Props.{m}" for m in props_modules] + list(extra_modules)
     run.checker_cmd = "cd lean && lake build " + " ".join(mods) + \
         " && lake env lean GettsimVerif/Audit/<generated #print axioms file>"
@@ -371,9 +392,9 @@ def audit_axioms(mod: str, names: list[str]) -> dict[str, list[str]]:
     write_if_changed(path, body)
     rc, out = lean_file(path)
     res: dict[str, list[str]] = {}
-    for m in re.finditer(r"'([^']+)' depends on axioms: \[([^\]]*)\]", out, flags=re.S):
+    for m in re.finditer(r"^'(.+?)' depends on axioms: \[([^\]]*)\]", out, flags=re.S | re.M):
         res[m.group(1)] = [a.strip() for a in m.group(2).replace("\n", " ").split(",") if a.strip()]
-    for m in re.finditer(r"'([^']+)' does not depend on any axioms", out):
+    for m in re.finditer(r"^'(.+?)' does not depend on any axioms", out, flags=re.M):
         res[m.group(1)] = []
     # names may be reported fully qualified; map back by suffix
     final = {}
